@@ -125,18 +125,48 @@ def run(prog, rep):
         rep.instance("C25.MEMO", "memo is read as depth_so_far + memoised relative depth")
     else:
         rep.finding("C25.MEMO", fn.name, "memo-read", "the memoised depth is not added to depth_so_far when read (%s)" % [a[:80] for a in memo_reads], fn.loc())
-    # the list-valued introspection fields
-    body = prog.hir_body(fn)["body"]
-    from ..hirq import walk
-    names = set()
-    for n in walk(body):
-        if n.get("k") == "match":
-            for arm in n["arms"]:
-                for q in walk(arm["pat"]):
-                    if q.get("k") == "lit" and q.get("t") == "str":
-                        names.add(q["v"])
+    # the list-valued introspection fields: which field names lead to `depth += 1`.  Read on the
+    # CFG with private helpers inlined (the name test may live in a predicate function): every
+    # `str == "literal"` test of the field name whose true edge must pass the increment counts
+    # that literal; a name that matches none of them must be able to skip the increment.
+    from ..flow import branch_on_call, must_pass_cp, reachable_cp
+    g = prog.inline(fn, keep=r"check_selection_set$")
+    incs = set()
+    for b in g.live_blocks():
+        for st in g.stmts(b):
+            if st[0] == "=" and st[2][0] == "bin" and st[2][1].startswith("Add"):
+                cs = [op_const(o) for o in (st[2][2], st[2][3])]
+                if any(c is not None and isinstance(c[2], dict) and c[2].get("int") == "1" for c in cs):
+                    incs.add(b)
+    gn = [c for c in g.live_calls() if re.search(r"Iterator>::next$|Iterator::next$", c.name)]
+    exits = set(g.return_blocks()) | {c.block for c in gn}
+    names, uncounted, true_targets = set(), set(), set()
+    for c in g.live_calls():
+        if not re.search(r"PartialEq.*::eq$", c.name) or len(c.args) != 2:
+            continue
+        syms = [g.sym(x) for x in c.args]
+        lit = [re.search(r'"(\w+)"', x) for x in syms]
+        if sum(1 for x in lit if x) != 1 or not any("as_str(" in x and ".name" in x for x in syms):
+            continue
+        word = [x.group(1) for x in lit if x][0]
+        br = branch_on_call(g, c)
+        if br is None:
+            rep.fail("UNDECIDED rule=C25.CMP the result of comparing the field name with \"%s\" is not branched on directly" % word)
+            continue
+        t_true, t_false, _sw = br
+        true_targets.add(t_true)
+        if incs and must_pass_cp(g, [t_true], exits, incs)[0]:
+            names.add(word)
+        else:
+            uncounted.add(word)
+    gsel = [b for b in g.live_blocks() if g.switch_info(b) and g.switch_info(b).get("kind") == "enum" and g.switch_info(b)["adt"].endswith("executable::Selection")]
+    skip_ok = False
+    if len(gsel) == 1:
+        fstart = g.switch_info(gsel[0])["edges"].get("Field")
+        if fstart is not None:
+            skip_ok = bool(reachable_cp(g, [fstart], avoid=true_targets | incs) & exits)
     want = {"fields", "interfaces", "possibleTypes", "inputFields"}
-    if names == want:
-        rep.instance("C25.CMP", "list-valued introspection fields counted: %s" % sorted(names))
+    if names == want and not uncounted and skip_ok:
+        rep.instance("C25.CMP", "list-valued introspection fields counted: %s; any other field name skips the increment" % sorted(names))
     else:
-        rep.finding("C25.CMP", fn.name, "list-fields", "the set of depth-counted fields is %s, expected %s" % (sorted(names), sorted(want)), fn.loc())
+        rep.finding("C25.CMP", fn.name, "list-fields", "the set of depth-counted fields is %s (compared but not counted: %s; other names skip the increment: %s), expected %s" % (sorted(names), sorted(uncounted), skip_ok, sorted(want)), fn.loc())
